@@ -739,7 +739,7 @@ func (e *Engine) funcInfoOf(fn *ssa.Function) *funcInfo {
 	fi.allowed = true
 	if pkg != "" {
 		fi.sink = e.isSink(pkg, fi.name)
-		fi.allowed = e.allowed(pkg)
+		fi.allowed = e.allowed(pkg) || allowFuncs[fi.name] || (fn.Parent() != nil && allowFuncs[fn.Parent().String()])
 	}
 	funcInfoCache.Store(fn, fi)
 	return fi
@@ -1488,6 +1488,12 @@ func (p *Path) valuesEqual(a, b Value) *Term {
 		}
 	case HostVal:
 		if y, ok := b.(HostVal); ok {
+			if rx, ok := x.v.(reflectTypeHost); ok {
+				if ry, ok := y.v.(reflectTypeHost); ok {
+					return mkBool(types.Identical(rx.t, ry.t))
+				}
+				return tFalse
+			}
 			return mkBool(x.v == y.v)
 		}
 	}
